@@ -245,6 +245,7 @@ def run(rep, facts, tier):
     rule_03_7(rep, fx)
     rule_03_9(rep, fx)
     rule_03_11(rep, fx)
+    rule_03_12(rep, fx)
     from rules import numberset as _ns
     _ns.rule_from_base_and_set(rep, fx, 'R03.10')
 
@@ -498,3 +499,121 @@ def rule_03_11(rep, fx):
                     bad.append('path %s stores %s (increment by one: %s, key == counter on the path: %s)' % (list(path)[:6], str(new)[:70], ok_inc, eq_ok))
     rep.check(not bad and n_paths >= 1, 'R03.11', 'advance_ack_base/step', '%d path(s) to a store: key == counter, then counter + 1' % n_paths,
               'advance_ack_base can move ack_base over a number that is not known (%s): the next ACKNACK acknowledges samples that were never received and never requests them' % '; '.join(bad[:2]), b.where())
+
+
+def _guarded_effect(b, fx, og, P, edge_pred, effect_suffixes, both=True):
+    """(guards found, effect sites found, dominated, complete): the effect call lies behind the guard edge on every path from the entry, and (both) every path from the
+    guard edge to a return passes the effect."""
+    edges = list(switch_edges(b, fx, og))
+    guards = [(s_, t_) for s_, t_, cond, lab in edges if edge_pred(cond, lab)]
+    sites = [(bb, 'term') for bb, t in b.calls() if callee_res(t).endswith(tuple(effect_suffixes))]
+    dom = bool(guards) and bool(sites) and all(P.every_path_passes(None, s_, via_edges=guards, from_entry=True) for s_ in sites)
+    comp = True
+    if both:
+        for s_, t_ in guards:
+            for r in b.return_blocks():
+                if P.can_reach((t_, 0), (r, 'term'), avoid_pos=sites):
+                    comp = False
+    return len(guards), len(sites), dom, comp
+
+
+def rule_03_12(rep, fx):
+    """Reception bookkeeping of the writer proxy, the functions that keep `ack_base = lowest number neither received nor declared unavailable` true.
+    Written out after the mutation campaign showed that one-token mutants of these functions survived every rule."""
+    rep.rule('R03.12', 'reception bookkeeping: received_changes_add always records the number and advances the base exactly when the number equals it; set_irrelevant_change records '
+                       'the marker exactly for numbers >= base and advances exactly on equality; irrelevant_changes_range takes the "move the base" branch exactly when from <= base, keeps '
+                       'the changes at and after the exclusive end, moves the base only forward (end > base) and then advances it; the other branch marks every number of the range')
+    WPx = 'rtps::rtps_writer_proxy::RtpsWriterProxy::'
+
+    def cmp_edge(name, a_pred, b_pred, want):
+        def pred(cond, lab):
+            return lab is want and cond[0] == 'call' and cond[1].rsplit('::', 1)[-1] == name and len(cond[2]) == 2 and a_pred(cond[2][0]) and b_pred(cond[2][1])
+        return pred
+
+    def is_param(n):
+        return lambda x: x == ('param', n)
+
+    def is_base(x):
+        return x == ('field', 'ack_base', ('param', 1))
+    # ---- received_changes_add
+    b = fx.find(WPx + 'received_changes_add')
+    rep.analysed(b)
+    og, P = Origins(b, summaries=False), Pos(b)
+    ins = [(bb, t) for bb, t in b.calls() if callee_res(t).endswith('::insert') and 'BTreeMap' in callee_res(t)]
+    ok = len(ins) == 1 and all(P.every_path_passes(None, (r, 'term'), via_pos=[(ins[0][0], 'term')], from_entry=True) for r in b.return_blocks())
+    if ok:
+        bb, t = ins[0]
+        k = og.of_operand(t['args'][1], bb, 'term')
+        v = og.of_operand(t['args'][2], bb, 'term')
+        ok = k == ('param', 2) and v[0] == 'agg' and str(v[1]).endswith('Option::Some') and v[2][0] == ('param', 3)
+    g = _guarded_effect(b, fx, og, P, cmp_edge('eq', is_param(2), is_base, True), ['advance_ack_base'])
+    rep.check(ok and g[2] and g[3], 'R03.12', 'received_changes_add', 'insert(sn, Some(ts)) always; advance iff sn == ack_base',
+              'received_changes_add does not always record the received number, or does not advance the base exactly when the number equals it (guards %d, sites %d, dominated %s, complete %s)' % g, b.where())
+    # ---- set_irrelevant_change
+    b = fx.find(WPx + 'set_irrelevant_change')
+    rep.analysed(b)
+    og, P = Origins(b, summaries=False), Pos(b)
+    g1 = _guarded_effect(b, fx, og, P, cmp_edge('ge', is_param(2), is_base, True), ['BTreeMap::<K, V, A>::insert', 'BTreeMap::insert'])
+    g2 = _guarded_effect(b, fx, og, P, cmp_edge('eq', is_param(2), is_base, True), ['advance_ack_base'])
+    none_ok = False
+    for bb, t in b.calls():
+        if callee_res(t).endswith('::insert') and 'BTreeMap' in callee_res(t):
+            v = og.of_operand(t['args'][2], bb, 'term')
+            none_ok = og.of_operand(t['args'][1], bb, 'term') == ('param', 2) and v[0] == 'agg' and str(v[1]).endswith('Option::None')
+    rep.check(g1[2] and g1[3] and g2[2] and g2[3] and none_ok, 'R03.12', 'set_irrelevant_change', 'insert(sn, None) iff sn >= ack_base; advance iff sn == ack_base',
+              'set_irrelevant_change does not mark exactly the numbers at or above the base, or does not advance exactly on equality (insert %s, advance %s)' % (g1, g2), b.where())
+    # ---- irrelevant_changes_range
+    b = fx.find(WPx + 'irrelevant_changes_range')
+    rep.analysed(b)
+    og, P = Origins(b, summaries=False), Pos(b)
+    edges = list(switch_edges(b, fx, og))
+    le_t = [(s_, t_) for s_, t_, cond, lab in edges if cmp_edge('le', is_param(2), is_base, True)(cond, lab)]
+    le_f = [(s_, t_) for s_, t_, cond, lab in edges if cmp_edge('le', is_param(2), is_base, False)(cond, lab)]
+    splits = [(bb, t) for bb, t in b.calls() if callee_res(t).endswith('::split_off')]
+    apps = [(bb, t) for bb, t in b.calls() if callee_res(t).endswith('::append')]
+    okb = len(le_t) == 1 and len(le_f) == 1 and len(splits) == 2 and len(apps) == 1
+    why = 'branch on from <= ack_base: %d/%d, split_off: %d, append: %d' % (len(le_t), len(le_f), len(splits), len(apps))
+    if okb:
+        if P.can_reach((splits[1][0], 'term'), (splits[0][0], 'term')):
+            splits = [splits[1], splits[0]]
+        k0 = og.of_operand(splits[0][1]['args'][1], splits[0][0], 'term')
+        k1 = og.of_operand(splits[1][1]['args'][1], splits[1][0], 'term')
+        recv1 = og.of_operand(splits[1][1]['args'][0], splits[1][0], 'term')
+        app_src = og.of_operand(apps[0][1]['args'][1], apps[0][0], 'term')
+        okb = k0 == ('param', 2) and k1 == ('param', 3) and term_has(recv1, lambda x: x[0] == 'call' and x[1].endswith('::split_off')) and \
+            term_has(app_src, lambda x: x[0] == 'call' and x[1].endswith('::split_off') and term_has(x, lambda y: y == ('param', 3))) and \
+            all(P.every_path_passes(None, (sb, 'term'), via_edges=le_t, from_entry=True) for sb, _t in splits + apps)
+        for s_, t_ in le_t:
+            for r in b.return_blocks():
+                if P.can_reach((t_, 0), (r, 'term'), avoid_pos=[(apps[0][0], 'term')]):
+                    okb = False
+        why = 'split_off(%s) then split_off(%s), append of the tail' % (term_str(k0), term_str(k1))
+    # base moves only forward, then advance
+    stores = [(bb, si) for bb, si, st in b.statements() if st['s'] == 'assign' and (st['lhs'].get('p') or []) and isinstance(st['lhs']['p'][-1], dict) and st['lhs']['p'][-1].get('n') == 'ack_base']
+    gt_t = [(s_, t_) for s_, t_, cond, lab in edges if cmp_edge('gt', is_param(3), is_base, True)(cond, lab)]
+    adv = [(bb, 'term') for bb, t in b.calls() if callee_res(t).endswith('advance_ack_base')]
+    okm = len(stores) == 1 and len(gt_t) == 1 and len(adv) == 1
+    if okm:
+        sbb, ssi = stores[0]
+        v = og._rvalue(b.blocks[sbb]['st'][ssi]['rv'], sbb, ssi, 0)
+        okm = v == ('param', 3) and P.every_path_passes(None, (sbb, ssi), via_edges=gt_t, from_entry=True) and P.every_path_passes(None, adv[0], via_pos=[(sbb, ssi)], from_entry=True)
+        for r in b.return_blocks():
+            if P.can_reach((gt_t[0][1], 0), (r, 'term'), avoid_pos=[(sbb, ssi)]) or P.can_reach((sbb, ssi), (r, 'term'), avoid_pos=adv):
+                okm = False
+    # the marking branch
+    loop_ins = [(bb, t) for bb, t in b.calls() if callee_res(t).endswith('::insert') and 'BTreeMap' in callee_res(t)]
+    okl = len(loop_ins) == 1 and bool(le_f) and P.every_path_passes(None, (loop_ins[0][0], 'term'), via_edges=le_f, from_entry=True)
+    if okl:
+        bb, t = loop_ins[0]
+        k = og.of_operand(t['args'][1], bb, 'term')
+        v = og.of_operand(t['args'][2], bb, 'term')
+        okl = term_has(k, lambda x: x[0] == 'call' and x[1].endswith('::next')) and term_has(k, lambda x: x[0] == 'call' and x[1].endswith('range_inclusive')) and \
+            v[0] == 'agg' and str(v[1]).endswith('Option::None')
+        nexts = [(nb, 'term') for nb, nt in b.calls() if callee_res(nt).endswith('::next')]
+        some = [(s_, t_) for s_, t_, cond, lab in edges if lab == 'Some' and cond[0] == 'discr' and term_has(cond, lambda x: x[0] == 'call' and x[1].endswith('::next'))]
+        for s_, t_ in some:
+            for nx in nexts:
+                if P.can_reach((t_, 0), nx, avoid_pos=[(bb, 'term')]):
+                    okl = False
+    rep.check(okb and okm and okl, 'R03.12', 'irrelevant_changes_range', 'branch, split/append, forward-only base move + advance, marking loop',
+              'irrelevant_changes_range does not keep the bookkeeping invariant (move-the-base branch: %s [%s]; base moved forward only then advanced: %s; marking loop: %s)' % (okb, why, okm, okl), b.where())
